@@ -1,6 +1,6 @@
 CONSTANTS
   Mode = "all"
-  Kinds = {"gsub1_1", "gsub1_2", "gsub2_1", "gsub3_1", "gsub4_1", "gsub8_1", "ctx1", "ctx2", "ctx3", "chain1", "chain2", "chain3", "gpos1_1", "gpos1_2", "gpos2_1", "gpos2_2", "gpos3_1", "gpos4_1", "gpos6_1"}
+  Kinds = {"gsub1_1", "gsub1_2", "gsub2_1", "gsub3_1", "gsub4_1", "gsub8_1", "ctx1", "ctx2", "ctx3", "chain1", "chain2", "chain3", "gpos1_1", "gpos1_2", "gpos2_1", "gpos2_2", "gpos3_1", "gpos4_1", "gpos6_1", "ctx2z", "chain2z", "gpos2_2z"}
   Ns = {0, 1, 2, 5}
   Ms = {0, 1, 2, 4}
   Cs = {0, 1, 2, 3}
